@@ -1,0 +1,40 @@
+//go:build verif
+
+// Contracts for the verif build tag (read by /verif/govc; comment-only).
+package single
+
+//@ func finalSelector.Select(recv, ssContext) (res, err)
+//@ property C19
+//@ requires ssContext != nil && ssContext.Candidates != nil
+//@ ensures err == nil ==> ghset(members, ssContext.Candidates, res)
+//@ ensures err != nil ==> errIs(err, selectors.ErrNoFunctioning) && res == ""
+//@ modifies nothing
+
+//@ func lowerestLoadSelector.Select(recv, ssContext) (res, err)
+//@ trusted
+//@ note not verified: picks the least loaded candidate from float64 load ratios (floating point is outside this family); the membership test Candidates.Contains(lowerLoad) guards the only non-error return
+//@ modifies nothing
+//@ requires ssContext != nil && ssContext.Candidates != nil
+//@ ensures err == nil ==> ghset(members, ssContext.Candidates, res)
+//@ ensures err != nil ==> errIs(err, selectors.ErrNoFunctioning)
+
+//@ func Context.SetSelected
+//@ property C19
+//@ requires so.Candidates != nil && selected != nil
+//@ ensures so.selected == selected && so.Candidates != nil && fresh(so.Candidates)
+//@ ensures forall k string :: ghset(members, so.Candidates, k) <==> (old(ghset(members, so.Candidates, k)) && !ghset(members, selected, k))
+//@ modifies so.selected, so.selectedOnce, so.Candidates
+
+// server.Select tries the selectors in order. It never panics; a non-empty answer
+// is a candidate of the context it was called with.
+//
+//@ func server.Select(s, selectorContext) (res, err)
+//@ property C19
+//@ requires selectorContext != nil && selectorContext.Candidates != nil
+//@ requires forall i int :: 0 <= i && i < len(s.selectors) ==> s.selectors[i] != nil
+//@ loop 0 invariant serverId == "" && selectorContext.selected == old(selectorContext.selected) && selectorContext.Status == old(selectorContext.Status)
+//@ loop 0 invariant selectorContext.Candidates != nil && forall k string :: ghset(members, selectorContext.Candidates, k) ==> ghset(members, old(selectorContext.Candidates), k)
+//@ ensures err == nil ==> res != "" && ghset(members, old(selectorContext.Candidates), res)
+//@ ensures err != nil ==> res == ""
+//@ ensures selectorContext.Candidates != nil && forall k string :: ghset(members, selectorContext.Candidates, k) ==> ghset(members, old(selectorContext.Candidates), k)
+//@ preserves selectorContext.selected, selectorContext.Status
